@@ -402,11 +402,10 @@ def partialmax(ctx):
             R.require(bool(mx), "max-assign", b.where(), "insert_partial assigns self.max", fail_msg="insert_partial no longer updates self.max: a partial recorded for a version above the head stays beyond the advertised head (reload after restart advertises a head below its partials)")):
         return
     v = vins[0]
-    same_arm = [x for x in mx if b.dominates(x[1], v.bb) or b.dominates(v.bb, x[1])]
-    R.require(bool(same_arm), "max-with-new-partial", v.where(), "the max update is on the same path as the insertion of the new partial",
-              fail_msg="self.max is not updated on the path that inserts a new partial")
-    # value: cmp::max(self.max, Some(version))
-    ok = False
+    # the head update is either `self.max = max(self.max, Some(version))` or the equivalent guarded assignment
+    # `if Some(version) > self.max { self.max = Some(version) }`; its entry block must lie on the path of the new-partial insertion
+    entries = []
+    why = []
     for (bd, bb, how, line) in mx:
         for i, st in enumerate(b.blocks[bb]["s"]):
             if st[0] == "A" and st[3] == line and st[2][0] == "use" and op_place(st[2][1]) is not None:
@@ -415,17 +414,46 @@ def partialmax(ctx):
                     if o.kind == "call" and o.call.name() == "max":
                         a = cm.origin_summary(cm.operand_origins(b, o.call, 0)) + cm.origin_summary(cm.operand_origins(b, o.call, 1))
                         if any("max" in x for x in a) and any(x.startswith("arg2") for x in a):
-                            ok = True
-        t = b.term(bb)
-        if t["t"] == "call" and t["dest"][0] == 1 or True:
-            pass
-    # the assignment may be the destination of the cmp::max call itself
+                            entries.append(o.call.bb)
+                            why.append("max(self.max, Some(version))")
     for c in b.calls:
         if c.name() == "max" and any(isinstance(p, list) and p[0] == "f" and p[2] == "max" for p in c.dest[1:]):
             a = cm.origin_summary(cm.operand_origins(b, c, 0)) + cm.origin_summary(cm.operand_origins(b, c, 1))
             if any("max" in x for x in a) and any(x.startswith("arg2") for x in a):
-                ok = True
-    R.require(ok, "max-value", b.where(), "self.max = max(self.max, Some(version))", fail_msg="self.max is not set to max(self.max, Some(version)) in insert_partial")
+                entries.append(c.bb)
+                why.append("max(self.max, Some(version))")
+    for c in b.calls:
+        if c.f.startswith("core::cmp::PartialOrd::") and c.name() in ("gt", "lt", "ge", "le") and "CrsqlDbVersion" in c.self_ty:
+            a0 = cm.origin_summary(cm.operand_origins(b, c, 0))
+            a1 = cm.origin_summary(cm.operand_origins(b, c, 1))
+            v0, m0 = any(x.startswith("arg2") for x in a0), any("max" in x for x in a0)
+            v1, m1 = any(x.startswith("arg2") for x in a1), any("max" in x for x in a1)
+            if not ((v0 and m1) or (v1 and m0)):
+                continue
+            version_first = v0 and m1
+            true_means_newer = (c.name() in ("gt", "ge")) == version_first
+            te, fe = flow.true_false_targets(b, c)
+            edges = te if true_means_newer else fe
+            for (bd, bb, how, line) in mx:
+                if edges and b.edges_dominate(edges, bb):
+                    # value assigned: Some(version)
+                    val_ok = False
+                    for i, st in enumerate(b.blocks[bb]["s"]):
+                        if st[0] == "A" and st[3] == line and any(isinstance(p_, list) and p_[0] == "f" and p_[2] == "max" for p_ in st[1][1:]):
+                            srcp = op_place(st[2][1]) if st[2][0] == "use" else None
+                            if st[2][0] == "agg":
+                                names = [x for o_ in st[2][2] if op_place(o_) is not None for x in cm.origin_summary(flow.origins(b, op_place(o_), at=(bb, i)))]
+                                val_ok = any(x.startswith("arg2") for x in names)
+                            elif srcp is not None:
+                                val_ok = any(x.startswith("arg2") for x in cm.origin_summary(flow.origins(b, srcp, at=(bb, i))))
+                    if val_ok:
+                        entries.append(c.bb)
+                        why.append("if Some(version) %s self.max { self.max = Some(version) }" % ("newer-than"))
+    same_arm = [e for e in entries if b.dominates(e, v.bb) or b.dominates(v.bb, e)]
+    R.require(bool(same_arm), "max-with-new-partial", v.where(), "the head update (%s) is on the same path as the insertion of the new partial" % (why[0] if why else "?"),
+              fail_msg="self.max is not updated on the path that inserts a new partial")
+    R.require(bool(entries), "max-value", b.where(), "self.max becomes max(self.max, Some(version)) (%s)" % (why[0] if why else "?"),
+              fail_msg="self.max is not set to max(self.max, Some(version)) in insert_partial (neither the max() form nor the guarded assignment was found)")
 
 
 # ------------------------------------------------------------------------------------------------ publishes_all
@@ -474,22 +502,56 @@ def contains(ctx):
     if not R.anchor(b, "contains_version", "fn BookedVersions::contains_version"):
         return
     cmps = [c for c in b.calls if flow.is_compare(c) and "CrsqlDbVersion" in c.self_ty and c.name() in ("lt", "le", "gt", "ge")]
+
+    def fields_of(c, i):
+        return cm.deep_arg_fields(b, op_place(c.args[i]), (c.bb, "T")) if op_place(c.args[i]) is not None else set()
+    heads = [c for c in cmps if any(x == "arg1.max" or x.startswith("arg1.max.") for x in fields_of(c, 0) | fields_of(c, 1))]
+    gapc = [c for c in cmps if c not in heads and any(x.startswith("arg1.needed") for x in fields_of(c, 0) | fields_of(c, 1))]
     anys = [c for c in b.calls if c.name() == "any"]
-    if not (R.require(len(cmps) == 1, "head-compare", b.where(), "one ordering comparison with the head", fail_msg="expected one ordering comparison max ? version in contains_version, found %d" % len(cmps))
-            and R.anchor(anys, "needed.any", "needed.iter().any(..)")):
+    if not R.require(len(heads) == 1, "head-compare", b.where(), "one ordering comparison with the head", fail_msg="expected one ordering comparison max ? version in contains_version, found %d" % len(heads)):
         return
-    c, a = cmps[0], anys[0]
-    o0 = cm.deep_arg_fields(b, op_place(c.args[0]), (c.bb, "T"))
-    a_first = any("max" in x for x in o0)   # role A = self.max, B = version
-    res = {}
-    for o in ("<", "=", ">"):
-        for inneeded in (False, True):
-            atom = {c.bb: flow.compare_value(c.name(), o, a_first), a.bb: inneeded}
-            _, rets = flow.eval_guard(b, atom)
-            res[(o, inneeded)] = rets
+    c = heads[0]
+    a_first = any("max" in x for x in fields_of(c, 0))   # role A = self.max, B = version
     want = {("<", False): {False}, ("=", False): {True}, (">", False): {True}, ("<", True): {False}, ("=", True): {False}, (">", True): {False}}
+    res = {}
+    if gapc and not anys:
+        # the membership test is written out as a loop over self.needed: `gap.start() <= v && v <= gap.end()`
+        def bound(g, i):
+            p_ = op_place(g.args[i])
+            if p_ is None:
+                return set()
+            return {o.call.name() for o in flow.origins(b, p_, at=(g.bb, "T"), stop=lambda cc: cc.name() in ("start", "end")) if o.kind == "call" and o.call.name() in ("start", "end")}
+        lo = [g for g in gapc if "start" in bound(g, 0) | bound(g, 1)]
+        hi = [g for g in gapc if "end" in bound(g, 0) | bound(g, 1)]
+        if not (R.require(len(lo) == 1 and len(hi) == 1, "gap-tests", b.where(), "one test against the gap's start and one against its end", fail_msg="could not identify the gap bounds tests in contains_version (%d start, %d end)" % (len(lo), len(hi)))):
+            return
+        glo, ghi = lo[0], hi[0]
+        lo_first = "start" in bound(glo, 0)     # role A = gap.start()
+        hi_first = "end" in bound(ghi, 0)       # role A = gap.end()
+        for o in ("<", "=", ">"):
+            for so in ("<", "=", ">"):          # gap.start ? v
+                for eo in ("<", "=", ">"):      # gap.end ? v
+                    inneeded = so in ("<", "=") and eo in ("=", ">")
+                    atom = {c.bb: flow.compare_value(c.name(), o, a_first), glo.bb: flow.compare_value(glo.name(), so, lo_first), ghi.bb: flow.compare_value(ghi.name(), eo, hi_first)}
+                    # "v lies in a needed range" presupposes a range: evaluate from inside the loop body then
+                    first = glo.bb if b.dominates(glo.bb, ghi.bb) else ghi.bb
+                    _, rets = flow.eval_guard(b, atom, start=first) if inneeded else flow.eval_guard(b, atom)
+                    res.setdefault((o, inneeded), set()).update(rets)
+        a = glo
+    else:
+        if not R.anchor(anys, "needed.any", "needed.iter().any(..)"):
+            return
+        a = anys[0]
+        for o in ("<", "=", ">"):
+            for inneeded in (False, True):
+                atom = {c.bb: flow.compare_value(c.name(), o, a_first), a.bb: inneeded}
+                _, rets = flow.eval_guard(b, atom)
+                res[(o, inneeded)] = rets
     R.require(res == want, "truth-table", c.where(), "contains_version over (max ? v, v in needed): %s" % {k: sorted(map(str, v)) for k, v in res.items()},
               fail_msg="contains_version truth table is %s; expected held iff (max >= v and v not needed): a version equal to the head or inside a gap would be misreported" % {k: sorted(map(str, v)) for k, v in res.items()})
+    if a in gapc:
+        R.ok("any-over-needed", a.where(), "the membership test ranges over self.needed (explicit loop)")
+        return
     fl = cm.deep_names(b, op_place(a.args[0]), (a.bb, "T"))[0]
     R.require("needed" in fl, "any-over-needed", a.where(), "the membership test ranges over self.needed")
 
